@@ -13,6 +13,14 @@ CHECKS = {
              ref="§5 C02", note="LMDB replaced by the contract model stubs/lmdb (sorted key list, MDB_SET_RANGE/MDB_PREV semantics). SQL side and planner/end-to-end obligations: see evidence for what is currently included. "),
  "C04": dict(text="EVENT and EOSE frames produced by the real serializer/sender for a symbolic sub id, content or tag item (<=2 characters over an alphabet with one representative per JSON lexical class) and symbolic tag structure equal the frame assembled with the trusted encoders or parse (json.loads) to the expected array.",
              ref="§5 C04", note="json.encoder.encode_basestring (C) replaced by a reference implementation validated against it at import; numbers checked by the hole technique (concrete). "),
+ "C03": dict(text="is_signed + Event.verify with SHA-256/secp256k1 replaced by a solver-chosen oracle: acceptance implies the claimed id equals the hash of the event's own fields, the signature oracle accepted (sig, hash) under the event's pubkey and every delegation tag was accepted; type-confused fields (13 tag shapes, 5 created_at types, 5 hex variants) never pass.",
+             ref="§5 C03", note="crypto is an oracle (claims hold for any behaviour of the crypto); admission-path gating (no effect before validation) is covered by C06/C14 obligations. "),
+ "C14": dict(text="can_do == role-set intersection for all subsets of a 3-role alphabet, all token shapes and actions; save gate on both backends and query gate in subscribe raise 'restricted' before any effect; output validator consulted on live pushes; homeserver recipe validators equal their documented predicate.",
+             ref="§5 C14", note="storages are instantiated without constructors, everything behind the gate is a recorder stub; role read-back through the SQL engine / signed service events is outside (engine + secp256k1). "),
+ "C15": dict(text="check_auth_event/authenticate for every combination of <=2 (thorough 3) tags out of 13 tag variants (URL substrings/superstrings/empty, foreign or truncated challenges, bare tags), symbolic kind/created_at/now and signature oracle, four ways of configuring relay_urls: acceptance implies valid signature, kind 22242, |now-created_at|<600, every relay tag equals a configured URL, every challenge tag equals this connection's challenge.",
+             ref="§5 C15", note="signature = oracle bool; unpredictability of secrets.token_hex is not a solver question (outside). "),
+ "C16": dict(text="Each validator raises iff its documented bound is violated (symbolic sizes, clocks, kinds, key selectors, PoW bits, p-tag counts); pipeline order/fail-closed; dynamic list contents after refresh; no admission window during refresh with a concurrent validation after every set mutation.",
+             ref="§5 C16", note="clock symbolic ints; executor replaced by a synchronous call; threads modelled at set-operation granularity (GIL); verification.py (NIP-05) cannot be imported (nostr_bot absent) and is outside. "),
 }
 NA = {}
 def main():
